@@ -23,10 +23,13 @@ CONSTANTS Configs,      \* set of <<InitialDelay, MaxDelay, MaxPendingEvents (0 
           AdvIdleOnly,  \* TRUE: the clock moves only when nothing else can (liveness configurations)
           UseMonitor,   \* FALSE: the monitor is switched off (liveness configurations)
           CloseFix,     \* FALSE: Close as written (holds the lock across wg.Wait); TRUE: repaired
-          Variant       \* "ok" | "capeq" | "skipfire" | "close2early" | "alwaysdouble" | "inputctx" | "bfkept": known-bad variants (non-vacuity)
+          Variant       \* "ok" | "capeq" | "skipfire" | "close2early" | "alwaysdouble" | "inputctx" | "bfkept" | "wgLeakOnRejectedRun": known-bad variants (non-vacuity)
 
 Gs == 1..Len(AddProgs)
 Ks == 1..NClosers
+(* number of goroutines that call Run once more while/after the first Run (overridden in some configurations) *)
+NRun2 == 0
+R2s == 1..NRun2
 TotalAdds == LET RECURSIVE Sum(_) Sum(i) == IF i = 0 THEN 0 ELSE AddProgs[i] + Sum(i - 1) IN Sum(Len(AddProgs))
 
 VARIABLES cfg, kind, now, lock, closed, closeCh, cancelled, wg,
@@ -37,10 +40,11 @@ VARIABLES cfg, kind, now, lock, closed, closeCh, cancelled, wg,
           rpc, tch,
           apc, aid, aleft, nextId,
           cpc, chelp,
+          r2pc,          \* callers of a second Run on the running (or ended) limiter: "idle" | "called" | "body" | "done"
           cons,          \* "ready" (in its receive) | "parked" (slow consumer, not receiving)
           counted, cov,  \* history: Adds that took effect / covered by a delivered signal
           c              \* the contract monitor
-vars == <<cfg, kind, now, lock, closed, closeCh, cancelled, wg, pendSet, hasTimer, tstate, deadline, curDur, bf, tokS, sigS,
+vars == <<cfg, kind, r2pc, now, lock, closed, closeCh, cancelled, wg, pendSet, hasTimer, tstate, deadline, curDur, bf, tokS, sigS,
           rpc, tch, apc, aid, aleft, nextId, cpc, chelp, cons, counted, cov, c>>
 
 I == cfg[1]
@@ -53,7 +57,7 @@ Init == /\ cfg \in Configs /\ kind \in ConsKinds /\ now = 0 /\ lock = 0 /\ close
         /\ wg = 1 /\ pendSet = {} /\ hasTimer = FALSE /\ tstate = "none" /\ deadline = 0 /\ curDur = cfg[1] /\ bf = 1
         /\ tokS = 0 /\ sigS = {} /\ rpc = "top" /\ tch = FALSE
         /\ apc = [g \in Gs |-> "idle"] /\ aid = [g \in Gs |-> 0] /\ aleft = [g \in Gs |-> AddProgs[g]] /\ nextId = 1
-        /\ cpc = [k \in Ks |-> "idle"] /\ chelp = [k \in Ks |-> 0]
+        /\ cpc = [k \in Ks |-> "idle"] /\ chelp = [k \in Ks |-> 0] /\ r2pc = [j \in R2s |-> "idle"]
         /\ cons = (IF kind = "slow" THEN "parked" ELSE "ready") /\ counted = {} /\ cov = {}
         /\ c = CResetCfg(cfg[1], cfg[2], cfg[3])
 
@@ -61,12 +65,14 @@ RunAlive == rpc \notin {"exited", "done"}
 Helpers == (IF RunAlive THEN 1 ELSE 0) + tokS + Cardinality(sigS)
 RctxDone == cancelled \/ rpc \in {"ret", "exited", "done"}
 InFlight == Cardinality({g \in Gs : apc[g] # "idle"}) + Cardinality({k \in Ks : cpc[k] \notin {"idle", "done"}})
+            + Cardinality({j \in R2s : r2pc[j] \notin {"idle", "done"}})
 (* AtRest: no step of Internal is enabled (written out; AtRestDef checks it against ENABLED) *)
 AtRest == /\ \A g \in Gs : apc[g] # "body" /\ (apc[g] = "called" => lock # 0)
           /\ ~(tokS > 0 /\ closeCh)
           /\ (rpc \in {"top", "input", "timer"} => lock # 0) /\ rpc \notin {"ret", "exited"}
           /\ (rpc = "select" => ~(cancelled \/ closeCh \/ tokS > 0 \/ (tch /\ tstate = "fired")))
           /\ \A x \in sigS : cons # "ready" /\ ~(IF 0 \in x THEN cancelled ELSE RctxDone)
+          /\ \A j \in R2s : r2pc[j] # "body" /\ (r2pc[j] = "called" => Variant = "wgLeakOnRejectedRun" /\ lock # 0)
           /\ \A k \in Ks : /\ cpc[k] # "unlocked" /\ (cpc[k] = "wait" => wg # 0)
                             /\ (cpc[k] = "called" => CloseFix /\ lock # 0) /\ (cpc[k] = "beforeLock" => lock # 0)
 (* the harness observes at rest; in the model the observation is taken as soon as it is informative *)
@@ -82,7 +88,7 @@ AddCall(g) == /\ apc[g] = "idle" /\ aleft[g] > 0 /\ ~ObsPending
               /\ (AdvIdleOnly => now + M <= MaxNow)
               /\ apc' = [apc EXCEPT ![g] = "called"] /\ aid' = [aid EXCEPT ![g] = nextId] /\ nextId' = nextId + 1
               /\ Obs([ev |-> "add_call", n |-> nextId])
-              /\ UNCHANGED <<cfg, kind, now, lock, closed, closeCh, cancelled, wg, pendSet, hasTimer, tstate, deadline, curDur, bf, tokS, sigS,
+              /\ UNCHANGED <<cfg, kind, r2pc, now, lock, closed, closeCh, cancelled, wg, pendSet, hasTimer, tstate, deadline, curDur, bf, tokS, sigS,
                              rpc, tch, aleft, cpc, chelp, cons, counted, cov>>
 AddBody(g) == /\ apc[g] = "called" /\ lock = 0
               /\ IF CloseFix /\ closed
@@ -90,27 +96,27 @@ AddBody(g) == /\ apc[g] = "called" /\ lock = 0
                    ELSE /\ pendSet' = pendSet \cup {aid[g]} /\ counted' = counted \cup {aid[g]}
                         /\ wg' = wg + 1 /\ tokS' = tokS + 1
               /\ apc' = [apc EXCEPT ![g] = "body"]
-              /\ UNCHANGED <<cfg, kind, now, lock, closed, closeCh, cancelled, hasTimer, tstate, deadline, curDur, bf, sigS,
+              /\ UNCHANGED <<cfg, kind, r2pc, now, lock, closed, closeCh, cancelled, hasTimer, tstate, deadline, curDur, bf, sigS,
                              rpc, tch, aid, aleft, nextId, cpc, chelp, cons, cov, c>>
 AddRet(g) == /\ apc[g] = "body"
              /\ apc' = [apc EXCEPT ![g] = "idle"] /\ aleft' = [aleft EXCEPT ![g] = @ - 1]
              /\ Obs([ev |-> "add_ret", n |-> aid[g]])
-             /\ UNCHANGED <<cfg, kind, now, lock, closed, closeCh, cancelled, wg, pendSet, hasTimer, tstate, deadline, curDur, bf, tokS, sigS,
+             /\ UNCHANGED <<cfg, kind, r2pc, now, lock, closed, closeCh, cancelled, wg, pendSet, hasTimer, tstate, deadline, curDur, bf, tokS, sigS,
                             rpc, tch, aid, nextId, cpc, chelp, cons, counted, cov>>
 (* a token sender gives up once closeCh is closed *)
 TokExit == /\ tokS > 0 /\ closeCh /\ tokS' = tokS - 1 /\ wg' = wg - 1
-           /\ UNCHANGED <<cfg, kind, now, lock, closed, closeCh, cancelled, pendSet, hasTimer, tstate, deadline, curDur, bf, sigS,
+           /\ UNCHANGED <<cfg, kind, r2pc, now, lock, closed, closeCh, cancelled, pendSet, hasTimer, tstate, deadline, curDur, bf, sigS,
                           rpc, tch, apc, aid, aleft, nextId, cpc, chelp, cons, counted, cov, c>>
 
 (* ---------------- Run - coalescing.go:106-147 ---------------- *)
 RunTop == /\ rpc = "top" /\ lock = 0 /\ tch' = hasTimer /\ rpc' = "select"
-          /\ UNCHANGED <<cfg, kind, now, lock, closed, closeCh, cancelled, wg, pendSet, hasTimer, tstate, deadline, curDur, bf, tokS, sigS,
+          /\ UNCHANGED <<cfg, kind, r2pc, now, lock, closed, closeCh, cancelled, wg, pendSet, hasTimer, tstate, deadline, curDur, bf, tokS, sigS,
                          apc, aid, aleft, nextId, cpc, chelp, cons, counted, cov, c>>
 RunSelect == /\ rpc = "select"
              /\ \/ /\ (cancelled \/ closeCh) /\ rpc' = "ret" /\ UNCHANGED <<tokS, wg, tstate>>
                 \/ /\ tokS > 0 /\ tokS' = tokS - 1 /\ wg' = wg - 1 /\ rpc' = "input" /\ UNCHANGED tstate
                 \/ /\ tch /\ tstate = "fired" /\ tstate' = "taken" /\ rpc' = "timer" /\ UNCHANGED <<tokS, wg>>
-             /\ UNCHANGED <<cfg, kind, now, lock, closed, closeCh, cancelled, pendSet, hasTimer, deadline, curDur, bf, sigS,
+             /\ UNCHANGED <<cfg, kind, r2pc, now, lock, closed, closeCh, cancelled, pendSet, hasTimer, deadline, curDur, bf, sigS,
                             tch, apc, aid, aleft, nextId, cpc, chelp, cons, counted, cov, c>>
 (* fireEvent: pending is zeroed and a sender goroutine is spawned *)
 FireSig == IF pendSet # {} /\ ~(Variant = "skipfire" /\ sigS # {}) THEN sigS \cup {pendSet} ELSE sigS
@@ -136,20 +142,20 @@ RunInput == /\ rpc = "input" /\ lock = 0 /\ rpc' = "top"
                              ELSE /\ curDur' = (IF curDur < M THEN Min2(2 * curDur, M) ELSE curDur) /\ UNCHANGED bf
                         /\ tstate' = "armed" /\ deadline' = now + curDur'
                         /\ UNCHANGED <<hasTimer, sigS, wg, pendSet>>
-            /\ UNCHANGED <<cfg, kind, now, lock, closed, closeCh, cancelled, tokS,
+            /\ UNCHANGED <<cfg, kind, r2pc, now, lock, closed, closeCh, cancelled, tokS,
                            tch, apc, aid, aleft, nextId, cpc, chelp, cons, counted, cov, c>>
 RunTimer == /\ rpc = "timer" /\ lock = 0 /\ rpc' = "top"
             /\ sigS' = FireSig /\ wg' = FireWg
             /\ pendSet' = {} /\ hasTimer' = FALSE /\ tstate' = "none" /\ deadline' = 0
             /\ IF Variant = "bfkept" THEN curDur' = I /\ UNCHANGED bf ELSE curDur' = I /\ bf' = 1
-            /\ UNCHANGED <<cfg, kind, now, lock, closed, closeCh, cancelled, tokS,
+            /\ UNCHANGED <<cfg, kind, r2pc, now, lock, closed, closeCh, cancelled, tokS,
                            tch, apc, aid, aleft, nextId, cpc, chelp, cons, counted, cov, c>>
 (* return: deferred cancel() and wg.Done(); then the caller sees Run return *)
 RunExit == /\ rpc = "ret" /\ rpc' = "exited" /\ wg' = wg - 1
-           /\ UNCHANGED <<cfg, kind, now, lock, closed, closeCh, cancelled, pendSet, hasTimer, tstate, deadline, curDur, bf, tokS, sigS,
+           /\ UNCHANGED <<cfg, kind, r2pc, now, lock, closed, closeCh, cancelled, pendSet, hasTimer, tstate, deadline, curDur, bf, tokS, sigS,
                           tch, apc, aid, aleft, nextId, cpc, chelp, cons, counted, cov, c>>
 RunRet == /\ rpc = "exited" /\ rpc' = "done" /\ Obs([ev |-> "run_ret"])
-          /\ UNCHANGED <<cfg, kind, now, lock, closed, closeCh, cancelled, wg, pendSet, hasTimer, tstate, deadline, curDur, bf, tokS, sigS,
+          /\ UNCHANGED <<cfg, kind, r2pc, now, lock, closed, closeCh, cancelled, wg, pendSet, hasTimer, tstate, deadline, curDur, bf, tokS, sigS,
                          tch, apc, aid, aleft, nextId, cpc, chelp, cons, counted, cov>>
 
 (* ---------------- signal senders - coalescing.go:203-210 ---------------- *)
@@ -157,71 +163,86 @@ Deliver(x) == /\ x \in sigS /\ cons = "ready"
               /\ sigS' = sigS \ {x} /\ wg' = wg - 1 /\ cov' = cov \cup x
               /\ cons' = (IF kind = "slow" THEN "parked" ELSE "ready")
               /\ Obs([ev |-> "signal"])
-              /\ UNCHANGED <<cfg, kind, now, lock, closed, closeCh, cancelled, pendSet, hasTimer, tstate, deadline, curDur, bf, tokS,
+              /\ UNCHANGED <<cfg, kind, r2pc, now, lock, closed, closeCh, cancelled, pendSet, hasTimer, tstate, deadline, curDur, bf, tokS,
                              rpc, tch, apc, aid, aleft, nextId, cpc, chelp, counted>>
 SigExit(x) == /\ x \in sigS /\ (IF 0 \in x THEN cancelled ELSE RctxDone) /\ sigS' = sigS \ {x} /\ wg' = wg - 1
-              /\ UNCHANGED <<cfg, kind, now, lock, closed, closeCh, cancelled, pendSet, hasTimer, tstate, deadline, curDur, bf, tokS,
+              /\ UNCHANGED <<cfg, kind, r2pc, now, lock, closed, closeCh, cancelled, pendSet, hasTimer, tstate, deadline, curDur, bf, tokS,
                              rpc, tch, apc, aid, aleft, nextId, cpc, chelp, cons, counted, cov, c>>
 
 (* ---------------- Close - coalescing.go:244-255 ---------------- *)
 CloseCall(k) == /\ cpc[k] = "idle" /\ ~ObsPending /\ cpc' = [cpc EXCEPT ![k] = "called"] /\ Obs([ev |-> "close_call"])
-                /\ UNCHANGED <<cfg, kind, now, lock, closed, closeCh, cancelled, wg, pendSet, hasTimer, tstate, deadline, curDur, bf, tokS, sigS,
+                /\ UNCHANGED <<cfg, kind, r2pc, now, lock, closed, closeCh, cancelled, wg, pendSet, hasTimer, tstate, deadline, curDur, bf, tokS, sigS,
                                rpc, tch, apc, aid, aleft, nextId, chelp, cons, counted, cov>>
 (* as written: CAS + close(closeCh); then Lock; wg.Wait; Unlock *)
 CloseSignal(k) == /\ ~CloseFix /\ cpc[k] = "called"
                   /\ IF Variant = "close2early" /\ closed
                        THEN cpc' = [cpc EXCEPT ![k] = "unlocked"] /\ chelp' = [chelp EXCEPT ![k] = Helpers] /\ UNCHANGED <<closed, closeCh>>
                        ELSE closed' = TRUE /\ closeCh' = TRUE /\ cpc' = [cpc EXCEPT ![k] = "beforeLock"] /\ UNCHANGED chelp
-                  /\ UNCHANGED <<cfg, kind, now, lock, cancelled, wg, pendSet, hasTimer, tstate, deadline, curDur, bf, tokS, sigS,
+                  /\ UNCHANGED <<cfg, kind, r2pc, now, lock, cancelled, wg, pendSet, hasTimer, tstate, deadline, curDur, bf, tokS, sigS,
                                  rpc, tch, apc, aid, aleft, nextId, cons, counted, cov, c>>
 CloseLock(k) == /\ ~CloseFix /\ cpc[k] = "beforeLock" /\ lock = 0 /\ lock' = k /\ cpc' = [cpc EXCEPT ![k] = "wait"]
-                /\ UNCHANGED <<cfg, kind, now, closed, closeCh, cancelled, wg, pendSet, hasTimer, tstate, deadline, curDur, bf, tokS, sigS,
+                /\ UNCHANGED <<cfg, kind, r2pc, now, closed, closeCh, cancelled, wg, pendSet, hasTimer, tstate, deadline, curDur, bf, tokS, sigS,
                                rpc, tch, apc, aid, aleft, nextId, chelp, cons, counted, cov, c>>
 (* repaired: closed/closeCh inside a short critical section, wg.Wait outside the lock *)
 CloseCrit(k) == /\ CloseFix /\ cpc[k] = "called" /\ lock = 0
                 /\ IF Variant = "close2early" /\ closed
                      THEN cpc' = [cpc EXCEPT ![k] = "unlocked"] /\ chelp' = [chelp EXCEPT ![k] = Helpers] /\ UNCHANGED <<closed, closeCh>>
                      ELSE closed' = TRUE /\ closeCh' = TRUE /\ cpc' = [cpc EXCEPT ![k] = "wait"] /\ UNCHANGED chelp
-                /\ UNCHANGED <<cfg, kind, now, lock, cancelled, wg, pendSet, hasTimer, tstate, deadline, curDur, bf, tokS, sigS,
+                /\ UNCHANGED <<cfg, kind, r2pc, now, lock, cancelled, wg, pendSet, hasTimer, tstate, deadline, curDur, bf, tokS, sigS,
                                rpc, tch, apc, aid, aleft, nextId, cons, counted, cov, c>>
 CloseWait(k) == /\ cpc[k] = "wait" /\ wg = 0
                 /\ lock' = (IF lock = k THEN 0 ELSE lock) /\ cpc' = [cpc EXCEPT ![k] = "unlocked"] /\ chelp' = [chelp EXCEPT ![k] = Helpers]
-                /\ UNCHANGED <<cfg, kind, now, closed, closeCh, cancelled, wg, pendSet, hasTimer, tstate, deadline, curDur, bf, tokS, sigS,
+                /\ UNCHANGED <<cfg, kind, r2pc, now, closed, closeCh, cancelled, wg, pendSet, hasTimer, tstate, deadline, curDur, bf, tokS, sigS,
                                rpc, tch, apc, aid, aleft, nextId, cons, counted, cov, c>>
 CloseRet(k) == /\ cpc[k] = "unlocked" /\ cpc' = [cpc EXCEPT ![k] = "done"] /\ Obs([ev |-> "close_ret", helpers |-> chelp[k]])
-               /\ UNCHANGED <<cfg, kind, now, lock, closed, closeCh, cancelled, wg, pendSet, hasTimer, tstate, deadline, curDur, bf, tokS, sigS,
+               /\ UNCHANGED <<cfg, kind, r2pc, now, lock, closed, closeCh, cancelled, wg, pendSet, hasTimer, tstate, deadline, curDur, bf, tokS, sigS,
                               rpc, tch, apc, aid, aleft, nextId, chelp, cons, counted, cov>>
+
+(* ---------------- a second Run - coalescing.go:107-109 ---------------- *)
+(* `running` is already (and stays) set: the call returns "already running" at once and changes nothing.        *)
+(* Known-bad "wgLeakOnRejectedRun": the WaitGroup registration was moved in front of the check, wg.Done was not. *)
+Run2Call(j) == /\ r2pc[j] = "idle" /\ ~ObsPending /\ r2pc' = [r2pc EXCEPT ![j] = "called"] /\ Obs([ev |-> "run2_call"])
+               /\ UNCHANGED <<cfg, kind, now, lock, closed, closeCh, cancelled, wg, pendSet, hasTimer, tstate, deadline, curDur, bf, tokS, sigS,
+                              rpc, tch, apc, aid, aleft, nextId, cpc, chelp, cons, counted, cov>>
+Run2Body(j) == /\ r2pc[j] = "called" /\ r2pc' = [r2pc EXCEPT ![j] = "body"]
+               /\ IF Variant = "wgLeakOnRejectedRun" THEN lock = 0 /\ wg' = wg + 1 ELSE UNCHANGED wg
+               /\ UNCHANGED <<cfg, kind, now, lock, closed, closeCh, cancelled, pendSet, hasTimer, tstate, deadline, curDur, bf, tokS, sigS,
+                              rpc, tch, apc, aid, aleft, nextId, cpc, chelp, cons, counted, cov, c>>
+Run2Ret(j) == /\ r2pc[j] = "body" /\ r2pc' = [r2pc EXCEPT ![j] = "done"] /\ Obs([ev |-> "run2_ret", err |-> TRUE])
+              /\ UNCHANGED <<cfg, kind, now, lock, closed, closeCh, cancelled, wg, pendSet, hasTimer, tstate, deadline, curDur, bf, tokS, sigS,
+                             rpc, tch, apc, aid, aleft, nextId, cpc, chelp, cons, counted, cov>>
 
 (* ---------------- environment ---------------- *)
 Internal == \/ \E g \in Gs : AddBody(g) \/ AddRet(g)
             \/ TokExit \/ RunTop \/ RunSelect \/ RunInput \/ RunTimer \/ RunExit \/ RunRet
             \/ \E x \in sigS : Deliver(x) \/ SigExit(x)
             \/ \E k \in Ks : CloseSignal(k) \/ CloseLock(k) \/ CloseCrit(k) \/ CloseWait(k) \/ CloseRet(k)
+            \/ \E j \in R2s : Run2Body(j) \/ Run2Ret(j)
 AtRestDef == AtRest <=> ~ENABLED Internal
 (* the clock is moved to t: a timer whose deadline is reached fires (its channel gets a value) *)
 AdvTo(t) == /\ now' = t
             /\ tstate' = (IF tstate = "armed" /\ deadline <= t THEN "fired" ELSE tstate)
             /\ Obs([ev |-> "adv", now |-> t])
-            /\ UNCHANGED <<cfg, kind, lock, closed, closeCh, cancelled, wg, pendSet, hasTimer, deadline, curDur, bf, tokS, sigS,
+            /\ UNCHANGED <<cfg, kind, r2pc, lock, closed, closeCh, cancelled, wg, pendSet, hasTimer, deadline, curDur, bf, tokS, sigS,
                            rpc, tch, apc, aid, aleft, nextId, cpc, chelp, cons, counted, cov>>
 Adv == /\ now < MaxNow /\ (AdvIdleOnly => AtRest) /\ ~ObsPending /\ AdvTo(now + 1)
 Cancel == /\ AllowCancel /\ ~cancelled /\ ~ObsPending /\ cancelled' = TRUE /\ Obs([ev |-> "cancel"])
-          /\ UNCHANGED <<cfg, kind, now, lock, closed, closeCh, wg, pendSet, hasTimer, tstate, deadline, curDur, bf, tokS, sigS,
+          /\ UNCHANGED <<cfg, kind, r2pc, now, lock, closed, closeCh, wg, pendSet, hasTimer, tstate, deadline, curDur, bf, tokS, sigS,
                          rpc, tch, apc, aid, aleft, nextId, cpc, chelp, cons, counted, cov>>
 Take == /\ cons = "parked" /\ ~ObsPending /\ cons' = "ready"
-        /\ UNCHANGED <<cfg, kind, now, lock, closed, closeCh, cancelled, wg, pendSet, hasTimer, tstate, deadline, curDur, bf, tokS, sigS,
+        /\ UNCHANGED <<cfg, kind, r2pc, now, lock, closed, closeCh, cancelled, wg, pendSet, hasTimer, tstate, deadline, curDur, bf, tokS, sigS,
                        rpc, tch, apc, aid, aleft, nextId, cpc, chelp, counted, cov, c>>
 (* observation points of the harness: nothing can move *)
 Quiescent == /\ UseMonitor /\ AtRest /\ InFlight = 0
              /\ c' = CNext(c, QuiescentEv) /\ c' # c
-             /\ UNCHANGED <<cfg, kind, now, lock, closed, closeCh, cancelled, wg, pendSet, hasTimer, tstate, deadline, curDur, bf, tokS, sigS,
+             /\ UNCHANGED <<cfg, kind, r2pc, now, lock, closed, closeCh, cancelled, wg, pendSet, hasTimer, tstate, deadline, curDur, bf, tokS, sigS,
                             rpc, tch, apc, aid, aleft, nextId, cpc, chelp, cons, counted, cov>>
 Stuck == /\ UseMonitor /\ AtRest /\ (InFlight > 0 \/ ((cancelled \/ closeCh) /\ rpc # "done"))
          /\ c' = CNext(c, StuckEv) /\ c' # c
-         /\ UNCHANGED <<cfg, kind, now, lock, closed, closeCh, cancelled, wg, pendSet, hasTimer, tstate, deadline, curDur, bf, tokS, sigS,
+         /\ UNCHANGED <<cfg, kind, r2pc, now, lock, closed, closeCh, cancelled, wg, pendSet, hasTimer, tstate, deadline, curDur, bf, tokS, sigS,
                         rpc, tch, apc, aid, aleft, nextId, cpc, chelp, cons, counted, cov>>
 
-Env == Adv \/ Cancel \/ Take \/ Quiescent \/ Stuck \/ \E g \in Gs : AddCall(g) \/ \E k \in Ks : CloseCall(k)
+Env == Adv \/ Cancel \/ Take \/ Quiescent \/ Stuck \/ \E g \in Gs : AddCall(g) \/ \E k \in Ks : CloseCall(k) \/ \E j \in R2s : Run2Call(j)
 Next == Internal \/ Env
 Spec == Init /\ [][Next]_vars /\ WF_vars(Internal) /\ WF_vars(Adv) /\ WF_vars(Take)
              /\ (\A g \in Gs : WF_vars(AddCall(g)))
